@@ -201,6 +201,10 @@ pub const HOSTILE: &[&str] = &[
     "\u{1}", "\r", "\u{c}", "\u{b}", "\u{feff}", "\u{2028}", "1'", "'h", "8'hx", "1e", "1.", ".1", "1step", "::", "->", "->>", "|->", "|=>", "<=", "===", "!=?",
     "(*", "*)", "begin", "end", "module", "endmodule", "function", "endfunction", "case", "endcase", "fork", "join", "generate", "interface", "class", "package",
     "library", "include", "config", "endconfig", "-incdir", "\\esc ", "\\`x ", "\"a\\", "\"`x\"", "\"\\\n\"",
+    // usages of names that the random configurations / the soups themselves define, also as `include targets
+    "`A", "`X", "`M", "`A0", "`é", "`include `A\n", "`include `X\n", "`include `M\n", "`include `M x\n", "`define M\n", "`define M x\n", "`define M é\n",
+    "`define M \"\n", "`define M \"\"\n", "`define M(a) a\n", "`define X(a, b = 1) a b\n", "`M()", "`M(,)", "`X(1,)", "`X()", "`undef M\n", "`ifdef M\n",
+    "`ifndef X\n", "`elsif A\n", "`else\n", "`endif\n", "`__LINE__", "`\"", "``",
 ];
 
 /// Byte/chunk-level mutation (result is valid UTF-8: operates on char boundaries).
